@@ -62,9 +62,9 @@ type MapV struct {
 }
 type MapState struct {
 	DagOf *Object // map returned by dag.GetLeaves/GetRoots/GetVertices: values are the graph's vertices
-	Has  *Term // (Array K Bool)
-	Vals Value // shape of arrays, nil if values are not modelled
-	Len  *Term
+	Has   *Term   // (Array K Bool)
+	Vals  Value   // shape of arrays, nil if values are not modelled
+	Len   *Term
 }
 type ChanV struct {
 	Nil *Term
@@ -81,16 +81,16 @@ type TupleV struct{ E []Value }
 // Object is a heap cell. Lazily created objects (symbolic inputs) carry their initial value
 // generator so that every state (and the pre-state) sees the same initial content.
 type Object struct {
-	ID      int
-	Typ     types.Type
-	Name    string
-	Sym     bool // pre-existing (symbolic) object, not allocated by the executed code
-	init    Value
-	initFn  func() Value
-	Site    ssa.Instruction
-	Global  *ssa.Global
-	Const   bool // never written (package-level error values)
-	Ident   *Term // integer identity when stored in a ghost graph
+	ID     int
+	Typ    types.Type
+	Name   string
+	Sym    bool // pre-existing (symbolic) object, not allocated by the executed code
+	init   Value
+	initFn func() Value
+	Site   ssa.Instruction
+	Global *ssa.Global
+	Const  bool  // never written (package-level error values)
+	Ident  *Term // integer identity when stored in a ghost graph
 }
 
 func (o *Object) Initial() Value {
@@ -113,6 +113,7 @@ func isByte(t types.Type) bool {
 	b, ok := t.Underlying().(*types.Basic)
 	return ok && (b.Kind() == types.Uint8)
 }
+
 // isByteArray: byte arrays longer than 8 are modelled as one byte-string term (hashes, digests);
 // shorter ones are per-cell arrays.
 func isByteArray(t types.Type) bool {
@@ -217,7 +218,7 @@ type Gen struct {
 	errIDs  map[string]int64
 	strIDs  map[string]string
 	strLits map[string]string // const name -> literal
-	nonNil  bool               // lazily created pointers are non-nil
+	nonNil  bool              // lazily created pointers are non-nil
 }
 
 func NewGen() *Gen {
@@ -397,7 +398,6 @@ func (g *Gen) freshArrShape(ks string, t types.Type, hint string) Value {
 	}
 	return nil
 }
-
 
 // BLen returns the length term of a byte string, using known lengths where available.
 func (g *Gen) BLen(t *Term) *Term {
